@@ -33,6 +33,9 @@ func init() {
 }
 
 func runC04(c *an.Ctx) {
+	if n := sharedLoopCompleteness(c, "C04-R8", "dnsmsg.", "ecscache.", "dnsserver/cache."); n > 0 {
+		c.Ok("C04-R8", "element-wise loops", token.NoPos, "%d range loops of the cache and message helpers examined: no element ends a scan early", n)
+	}
 	c.Floor("C04-R1", 2)
 	c.Floor("C04-R2", 10)
 	c.Floor("C04-R3", 4)
